@@ -337,7 +337,10 @@ fn gen_op(
                         ops.push(plain(Op::NewSvg { slot }));
                         ops.push(faulted(rng, sw, Op::SvgRender { slot, qr: QrRef::Local(out) }, None));
                     }
-                    1 => ops.push(faulted(rng, sw, Op::Term { qr: QrRef::Local(out) }, None)),
+                    1 => {
+                        let print = rng.chance(1, 3);
+                        ops.push(faulted(rng, sw, Op::Term { qr: QrRef::Local(out), print }, None))
+                    }
                     _ => {
                         let slot = rng.usize_below(N_RENDER_SLOTS) as u8;
                         tg.imgs[slot as usize] = true;
@@ -407,7 +410,8 @@ fn gen_op(
         }
         13 => {
             let qr = pick_qr(rng);
-            ops.push(faulted(rng, sw, Op::Term { qr }, None));
+            let print = rng.chance(1, 3);
+            ops.push(faulted(rng, sw, Op::Term { qr, print }, None));
         }
         15 => gen_builder_twin(rng, sw, tg, inputs.len(), ops),
         16 => {
